@@ -421,6 +421,31 @@ func (runInfo *runInfoStruct) invokeLetDerefExpr(expr *ast.DerefExpr) {
 		return
 	}
 
-	runInfo.rv.Elem().Set(value)
+	if runInfo.rv.Kind() == reflect.Interface && !runInfo.rv.IsNil() {
+		runInfo.rv = runInfo.rv.Elem()
+	}
+	if runInfo.rv.Kind() != reflect.Ptr {
+		runInfo.err = newStringError(expr.Expr, "cannot deference non-pointer")
+		runInfo.rv = nilValue
+		return
+	}
+	if runInfo.rv.IsNil() {
+		runInfo.err = newStringError(expr.Expr, "cannot deference nil pointer")
+		runInfo.rv = nilValue
+		return
+	}
+	item := runInfo.rv.Elem()
+	if !item.CanSet() {
+		runInfo.err = newStringError(expr, "pointer value cannot be assigned")
+		runInfo.rv = nilValue
+		return
+	}
+	value, runInfo.err = convertReflectValueToType(value, item.Type())
+	if runInfo.err != nil {
+		runInfo.err = newStringError(expr, "type "+value.Type().String()+" cannot be assigned to type "+item.Type().String()+" for pointer")
+		runInfo.rv = nilValue
+		return
+	}
+	item.Set(value)
 	runInfo.rv = value
 }
